@@ -93,6 +93,7 @@ func checkC01(c *Ctx) {
 	c.checkReadRetry()
 	c.checkSetupState()
 	c.checkNesting()
+	c.checkListSpine()
 
 	// ---- C01-TA
 	for _, f := range c.zygoFuncs() {
